@@ -254,7 +254,11 @@ fn decode(tape: &[u32], tier: Tier) -> Case {
     };
     let nlog = t.usize(1, 2);
     let sizes = [1usize, 2, 3, 4, 6, 8, 12, 16];
-    let lens: Vec<usize> = (0..nlog).map(|_| sizes[t.pick(sizes.len())]).collect();
+    let mut lens: Vec<usize> = (0..nlog).map(|_| sizes[t.pick(sizes.len())]).collect();
+    let huge = t.chance(1, 60);
+    if huge {
+        lens[0] = 128 * 130; // beyond typical parallelisation thresholds
+    }
     let wseed = t.raw();
     // layout: layers x filters x {1,2} tensors
     let nlayers = t.usize(1, 3);
@@ -277,12 +281,17 @@ fn decode(tape: &[u32], tier: Tier) -> Case {
                 let dims = match rank {
                     1 => vec![n],
                     2 => {
-                        let divs: Vec<usize> = (1..=n).filter(|d| n % d == 0).collect();
-                        let a = divs[t.pick(divs.len())];
-                        vec![a, n / a]
+                        if n > 1000 {
+                            let _ = t.raw();
+                            vec![128, n / 128]
+                        } else {
+                            let divs: Vec<usize> = (1..=n).filter(|d| n % d == 0).collect();
+                            let a = divs[t.pick(divs.len())];
+                            vec![a, n / a]
+                        }
                     }
                     _ => {
-                        let divs: Vec<usize> = (1..=n).filter(|d| n % d == 0).collect();
+                        let divs: Vec<usize> = if n > 1000 { vec![1, 2, 4, 8, 128] } else { (1..=n).filter(|d| n % d == 0).collect() };
                         let a = divs[t.pick(divs.len())];
                         let m = n / a;
                         let divs2: Vec<usize> = (1..=m).filter(|d| m % d == 0).collect();
@@ -296,7 +305,9 @@ fn decode(tape: &[u32], tier: Tier) -> Case {
         layout.push(per);
     }
     let step_pattern = t.pick(4) as u8;
-    let nsteps = t.usize(1, tier.pick(60, 300));
+    // one history in five starts at a late step number (bias corrections that have long converged)
+    let step_offset: i32 = if t.chance(1, 5) { [100i32, 151, 152, 300, 1000, 5000][t.pick(6)] } else { 0 };
+    let nsteps = if huge { t.usize(1, 6) } else { t.usize(1, tier.pick(60, 300)) };
     let mut steps = Vec::new();
     let mut counter = vec![0i32; nlog];
     let gclass_fixed = if t.bool() { Some(t.pick(6) as u8) } else { None };
@@ -310,7 +321,7 @@ fn decode(tape: &[u32], tier: Tier) -> Case {
             _ => 1 + t.usize(0, 40) as i32,
         };
         let gclass = gclass_fixed.unwrap_or_else(|| t.pick(6) as u8);
-        steps.push(Step { logical, stepnr, gclass, gseed: t.raw(), rot: t.pick(4) });
+        steps.push(Step { logical, stepnr: stepnr + step_offset, gclass, gseed: t.raw(), rot: t.pick(4) });
     }
     Case { kind, lens, wseed, slots, layout, steps, step_pattern }
 }
@@ -518,7 +529,7 @@ impl Prop for C03 {
         t.pick(150_000, 6_000_000)
     }
     fn rule(&self) -> String {
-        "tape-decoded history: optimizer kind x hyper-parameters (valid ranges, exact 0 -> validate's default, None/Some(0)/Some(x) for decay and momentum, dampening, centred) x 1-2 logical parameters of flat length 1..16, each materialised in up to 4 slots (layer, filter, bias) as vector / matrix / 3-D tensor, x 1..60 (thorough 300) update steps naming a logical parameter, a step number (constant 1, increasing, repeated, arbitrary) and a gradient class (random, constant, sparse, sign-flipping, tiny 1e-20..1e-8, large 1e2..1e4). Oracles: documented equations in f64 with an f32 shadow for conditioning; rank independence <= 4 ulp; slot isolation bitwise against a solo run; finiteness. Non-trivial: >= 3 steps on one parameter with a stateful optimizer, or a rank >= 2 slot, or >= 2 interleaved slots. Distinct = (kind, hyper-parameters, rank multiset, step-number pattern, first 12 gradient classes, step count).".into()
+        "tape-decoded history: optimizer kind x hyper-parameters (valid ranges, exact 0 -> validate's default, None/Some(0)/Some(x) for decay and momentum, dampening, centred) x 1-2 logical parameters of flat length 1..16 (one history in 60: 128 x 130 elements), each materialised in up to 4 slots (layer, filter, bias) as vector / matrix / 3-D tensor, x 1..60 (thorough 300) update steps naming a logical parameter, a step number (constant 1, increasing, repeated, arbitrary; in one history of five offset by 100..5000)  and a gradient class (random, constant, sparse, sign-flipping, tiny 1e-20..1e-8, large 1e2..1e4). Oracles: documented equations in f64 with an f32 shadow for conditioning; rank independence <= 4 ulp; slot isolation bitwise against a solo run; finiteness. Non-trivial: >= 3 steps on one parameter with a stateful optimizer, or a rank >= 2 slot, or >= 2 interleaved slots. Distinct = (kind, hyper-parameters, rank multiset, step-number pattern, first 12 gradient classes, step count).".into()
     }
     fn assumptions(&self) -> Vec<String> {
         vec![
